@@ -1752,7 +1752,7 @@ def normalize(project) -> List[str]:
     except OSError:
         return []
     renamed = recover_renamed_anchors(project)
-    from .normalize2 import simplify_defensive, recover_loops, hoist_lambda_calls, sink_loop_exit, unroll_search_loops, search_loops_to_any, fold_local_tables, dispatch_on_constant, accumulate_to_join, propagate_string_constants, unroll_index_loops, scalarise_local_lists, scalarise_records, fold_dict_building, unfold_reduce, first_match_lists, split_walrus_conjunctions, split_on_name_truth, fold_tested_names
+    from .normalize2 import simplify_defensive, recover_loops, hoist_lambda_calls, sink_loop_exit, unroll_search_loops, search_loops_to_any, fold_local_tables, dispatch_on_constant, accumulate_to_join, propagate_string_constants, unroll_index_loops, scalarise_local_lists, scalarise_records, fold_dict_building, unfold_reduce, first_match_lists, split_walrus_conjunctions, split_on_name_truth, fold_tested_names, scalarise_slot_dicts
 
     module_of = {id(fi.node): fi.module for fi in project.funcs.values()}
     fi_of = {id(fi.node): fi for fi in project.funcs.values()}
@@ -1792,6 +1792,7 @@ def normalize(project) -> List[str]:
             n += propagate_string_constants(fn)
             n += unroll_index_loops(fn)
             n += scalarise_local_lists(fn)
+            n += scalarise_slot_dicts(fn)
             n += fold_dict_building(fn)
             n += inline_function_values(fn)
             if id(fn) in module_of:
